@@ -55,7 +55,13 @@ def oracle_c07(obs: dict, params: dict) -> list[tuple[str, str]]:
     v = []
     gwy = params.get("gwy_id", Q.GWY)
     if obs["cap_hit"]:
-        return [("C07:step-cap", "harness step cap hit (livelock?)")]
+        # the harness's step horizon was reached (the code under test polls or spins). Conclusive only if, by the virtual time reached, a
+        # caller is already overdue; otherwise the execution is INCONCLUSIVE (counted under caps_hit, never reported as a violation)
+        overdue = [c for c in obs["callers"] if c is not None and c["end_t"] is None and obs["end_t"] - c["start_t"] > min(params["callers"][c["i"]].get("timeout", 20.0) or 20.0, CAP) + 10.0 + TOL]
+        if overdue:
+            c = overdue[0]
+            return [(f"C07:hang:{params['callers'][c['i']]['cmd']}:step-cap", f"caller {c['i']} ({c['frame']}) still unfinished {obs['end_t'] - c['start_t']:.2f} s after its call when the step cap was reached")]
+        return [("C07:INCONCLUSIVE:step-cap", "step cap reached before any caller was overdue")]
     alerts = {a["frame"]: a for a in obs["alerts"]}
     for c in obs["callers"]:
         if c is None:
@@ -101,7 +107,7 @@ def oracle_c07(obs: dict, params: dict) -> list[tuple[str, str]]:
 def oracle_c08(obs: dict, params: dict) -> list[tuple[str, str]]:
     v = []
     if obs["cap_hit"]:
-        return [("C08:step-cap", "harness step cap hit")]
+        return [("C08:INCONCLUSIVE:step-cap", "step cap reached")]
     callers = [c for c in obs["callers"] if c is not None]
     frames = [c["frame"] for c in callers]
     if len(set(frames)) != len(frames):
@@ -214,6 +220,8 @@ def oracle_c08(obs: dict, params: dict) -> list[tuple[str, str]]:
 def oracle_c09(obs: dict, params: dict) -> list[tuple[str, str]]:
     v = []
     if obs["cap_hit"]:
+        if obs["end_t"] < params.get("horizon", 120.0) - 1.0:  # (virtual time still short of the horizon: the code polls - inconclusive)
+            return [("C09:INCONCLUSIVE:step-cap", "step cap reached before the horizon")]
         return [("C09:livelock", f"episode did not quiesce within the step cap; final={obs['final']}")]
     if obs["deadlock"]:
         return [("C09:deadlock", obs["deadlock"])]
@@ -304,10 +312,14 @@ def drive(ctx, pid: str, scenarios: list[tuple[dict, int]], audit_every: int = 4
         for (pid_, p, D, _, _), s in zip(tasks, pool.imap(_task, tasks, chunksize=1)):
             total.merge(s)
             byD[D] = byD.get(D, 0) + s.executions
-    ctx.vcount = dict(total.vcount)
+    inconclusive = sum(n for k, n in total.vcount.items() if "INCONCLUSIVE" in k)
+    ctx.vcount = {k: n for k, n in total.vcount.items() if "INCONCLUSIVE" not in k}
     for vv in sorted(total.violations.values(), key=lambda v: (v["cost"], len(v["choices"]))):
+        if "INCONCLUSIVE" in vv["key"]:
+            continue
         ctx.violation(vv["key"], vv["what"], {"world": "qos", "params": vv["params"], "choices": vv["choices"], "labels": vv["labels"]})
-    ctx.nviol_total = total.nviol
+    ctx.nviol_total = total.nviol - inconclusive
+    ctx.coverage["inconclusive_executions_step_cap"] = inconclusive + int(total.extra.get("slices_stopped_after_30_step_caps", 0))
     return total, byD
 
 
@@ -352,7 +364,7 @@ def inflight_viol(pid: str, obs: dict, params: dict) -> list:
     if obs["deadlock"]:
         viol.append((f"{pid}:deadlock", obs["deadlock"]))
     if obs["cap_hit"]:
-        viol.append((f"{pid}:livelock", "step cap"))
+        viol.append((f"{pid}:INCONCLUSIVE:step-cap", "step cap"))
     return viol
 
 
@@ -435,6 +447,9 @@ def bfs(ctx, pid: str, scenarios: list[dict], max_states: int = 400_000, audit_e
                     for h2, dig, terminal, viol, summary in out:
                         trans += 1
                         for k, what in viol:
+                            if "INCONCLUSIVE" in k:  # (step horizon reached while the code under test polls: the state is not expanded, the graph counts as capped)
+                                capped = True
+                                continue
                             e = viols.setdefault(k, {"what": what, "replay": {"world": "qos-bfs", "params": p, "hist": [list(x) for x in h2]}, "count": 0})
                             e["count"] += 1
                         if summary is not None:
